@@ -72,6 +72,47 @@ def case_key(case: dict) -> str:
     return hashlib.sha1(json.dumps(c, sort_keys=True).encode()).hexdigest()
 
 
+def validate_total(mod, pid: str, records: list[dict], trace_path: pathlib.Path, work: pathlib.Path) -> dict:
+    """Trace validation that stays total: when TLC cannot even evaluate the specification's clauses on some
+    recorded observation (an array of the wrong shape, a missing field ...) the log is bisected and each record on
+    which evaluation fails is reported with the clause `Unevaluable` -- what came back is outside the domain of the
+    specification's operators, which is a rejection of that trace, not a failure of the machinery."""
+    tmod, tcfg = mod.TRACE
+    env = getattr(mod, "TRACE_ENV", None)
+    try:
+        return tlc.validate_trace(tmod, tcfg, trace_path, tag=f"{pid}-trace", env=env)
+    except tlc.MachineryError as first:
+        if "Error: The error occurred when TLC was evaluating" not in str(first) and "Error: Evaluating" not in str(first) \
+                and "TLC threw an unexpected exception" not in str(first):
+            raise
+        merged = {"records": len(records), "fails": [], "seen": [], "missing": [], "wall_s": 0.0, "tlc_states": 0,
+                  "cmd": "bisected"}
+        stack = [records]
+        runs = 0
+        while stack:
+            chunk = stack.pop()
+            runs += 1
+            if runs > 60:
+                raise first
+            p = work / f"bisect-{runs}.ndjson"
+            write_trace(chunk, p)
+            try:
+                v = tlc.validate_trace(tmod, tcfg, p, tag=f"{pid}-trace-b{runs}", env=env)
+                merged["fails"] += v["fails"]
+                merged["seen"] = sorted(set(merged["seen"]) | set(v.get("seen", [])))
+                merged["wall_s"] += v["wall_s"]; merged["tlc_states"] += v["tlc_states"]
+                for k, val in v.items():
+                    if k not in merged:
+                        merged[k] = val
+            except tlc.MachineryError:
+                if len(chunk) == 1:
+                    merged["fails"].append([chunk[0]["tid"], 0, "Unevaluable"])
+                else:
+                    mid = len(chunk) // 2
+                    stack.append(chunk[mid:]); stack.append(chunk[:mid])
+        return merged
+
+
 def check(mod, tier: str, seed: int, *, replay: str | None = None) -> int:
     pid = mod.ID
     t0 = time.time()
@@ -104,8 +145,7 @@ def check(mod, tier: str, seed: int, *, replay: str | None = None) -> int:
         trace_path = work / "trace.ndjson"
         write_trace(records, trace_path)
         tmod, tcfg = mod.TRACE
-        verdict = tlc.validate_trace(tmod, tcfg, trace_path, tag=f"{pid}-trace",
-                                     env=getattr(mod, "TRACE_ENV", None))
+        verdict = validate_total(mod, pid, records, trace_path, work)
         if replay is None:
             for f in mc_futs:
                 mc_results.append(f.result())
